@@ -52,7 +52,7 @@ def run_shard(pid, tier, seed, k, n, out, budget):
     core.setup_paths()
     chk = load_check(pid)
     ctx = core.Ctx(pid, tier, seed)
-    cov = core.FunctionCoverage()
+    cov = core.FunctionCoverage(core.load_anchors(pid))
     core.COVERAGE = cov
     cov.start()
     sidecar = out + ".current"
@@ -249,6 +249,20 @@ def main():
     anchors = core.load_anchors(pid)
     anchors_hit = [x for x in anchors if x in anchors_seen]
     anchors_missed = [x for x in anchors if x not in anchors_seen]
+    # line-level reach inside the anchored functions (statement-start lines seen by sys.monitoring LINE events)
+    exe, hit = {}, {}
+    for x in anchors_seen:
+        if x.startswith("X|"):
+            _, owner, ls = x.split("|", 2)
+            exe.setdefault(owner, set()).update(int(v) for v in ls.split(",") if v)
+        elif x.startswith("L|"):
+            _, owner, ln = x.split("|", 2)
+            hit.setdefault(owner, set()).add(int(ln))
+    line_reach = {}
+    for owner in sorted(exe):
+        h = hit.get(owner, set()) & exe[owner]
+        miss = sorted(exe[owner] - h)
+        line_reach[owner] = {"executable_lines": len(exe[owner]), "executed": len(h), "not_executed": miss[:60]}
     if counters.get("harness_errors"):
         inconclusive.append({"reason": f"{counters['harness_errors']} harness error(s)",
                              "sample": samples.get("harness_error")})
@@ -278,6 +292,7 @@ def main():
             "monitor_counters": dict(sorted(counters.items())),
             "anchor_functions_executed": anchors_hit,
             "anchor_functions_not_executed": anchors_missed,
+            "anchor_line_reach": line_reach,
             "optional_cases_skipped_for_time_budget": skipped,
             "cpu_seconds_per_case_kind": {k: round(v, 2) for k, v in seconds.items()},
             "distinct_observations": {k: len(v) for k, v in sorted(distincts.items())},
